@@ -7,8 +7,11 @@ package dastard
 // PrepareChannels / PrepareRun (Lancero: geometry set directly, since sampleCard needs hardware;
 // Abaco: the real Sample() over fake PacketProducers that hand out packets built with the real
 // packets package; Triangle/SimPulse: real Configure+Sample; Roach: nchan set directly, since
-// samplePacket needs a UDP socket). For a subset the real WriteControl START / PublishData / STOP
-// is driven into a temp dir and every file header is decoded with the independent decoders.
+// samplePacket needs a UDP socket). For the small configurations of every source layout the real
+// WriteControl START / PublishData / STOP is driven into a temp dir for every file-type set out of
+// LJH22, LJH3, OFF (OFF with projectors loaded on all streams, OFF alone also on every other stream),
+// the run directory must hold one file per (stream, type) that wrote, and every LJH22 / LJH3 / OFF
+// header is decoded with the independent decoders and compared with the reported identity.
 // Every source type is also prepared twice on the same object without a Stop in between (family D).
 
 import (
@@ -23,6 +26,7 @@ import (
 
 	"github.com/usnistgov/dastard/internal/vexp"
 	"github.com/usnistgov/dastard/packets"
+	"gonum.org/v1/gonum/mat"
 )
 
 const (
@@ -185,16 +189,92 @@ func v19HeaderInt(h map[string]string, prefix string) (int, bool) {
 	return 0, false
 }
 
-// v19Files drives START / one record per stream / STOP on the real code and decodes the files.
-func v19Files(x *vexp.X, ds *AnySource, pub []chan []*DataRecord, ljh3 bool) (string, string) {
+// v19FileSets are the file-type sets a START can ask for (bit 1 LJH22, 2 LJH3, 4 OFF).
+const v19NMasks = 7
+
+func v19MaskName(m int) string {
+	var p []string
+	if m&1 != 0 {
+		p = append(p, "LJH22")
+	}
+	if m&2 != 0 {
+		p = append(p, "LJH3")
+	}
+	if m&4 != 0 {
+		p = append(p, "OFF")
+	}
+	return strings.Join(p, "+")
+}
+
+// v19ProjSets: which streams get projectors before an OFF-writing START. Streams alternate
+// error/feedback in a Lancero source, so "odd"/"even" are "feedback only"/"error only" there.
+var v19ProjSets = []string{"all streams", "odd stream indices", "even stream indices"}
+
+func v19HasProj(sel, i int) bool {
+	return sel == 0 || (sel == 1 && i%2 == 1) || (sel == 2 && i%2 == 0)
+}
+
+// v19ChooseFiles lets the environment pick the file-type set; OFF is written with projectors on all
+// streams, and an OFF-only START also with projectors on every other stream only (streams without
+// projectors then write nothing).
+func v19ChooseFiles(x *vexp.X, nstreams int) (mask, projSel int) {
+	mask = 1 + x.Choose(v19NMasks)
+	if mask == 4 && nstreams >= 2 { // with one stream only "all" and "even" exist, and they are the same
+		projSel = x.Choose(len(v19ProjSets))
+	}
+	return
+}
+
+func v19JSONString(m map[string]interface{}, keys ...string) (string, bool) {
+	var cur interface{} = m
+	for _, k := range keys {
+		mm, ok := cur.(map[string]interface{})
+		if !ok {
+			return "", false
+		}
+		cur = mm[k]
+	}
+	s, ok := cur.(string)
+	return s, ok
+}
+
+// v19Files drives START (file-type set mask; projectors loaded on the streams projSel selects when
+// OFF is in the set) / one record per stream / STOP on the real code, and then reads the run
+// directory: every (stream, file type) that wrote a record has a file of its own, and every file
+// header carries the identity the source reports for that stream.
+func v19Files(x *vexp.X, ds *AnySource, pub []chan []*DataRecord, mask, projSel int) (string, string) {
 	v19Seq++
 	base := filepath.Join(os.Getenv("TMPDIR"), fmt.Sprintf("c19_%d", v19Seq))
 	os.MkdirAll(base, 0755)
 	defer os.RemoveAll(base)
 	names := append([]string{}, ds.ChannelNames()...)
 	n := len(names)
+	hasProj := make([]bool, n)
+	if mask&4 != 0 {
+		for i, dsp := range ds.processors {
+			if !v19HasProj(projSel, i) {
+				continue
+			}
+			// coefficient 0 = first sample, coefficient 1 = sum of the samples
+			proj := mat.NewDense(2, dsp.NSamples, nil)
+			basis := mat.NewDense(dsp.NSamples, 2, nil)
+			proj.Set(0, 0, 1)
+			for j := 0; j < dsp.NSamples; j++ {
+				proj.Set(1, j, 1)
+				basis.Set(j, 1, 1.0/float64(dsp.NSamples))
+			}
+			x.Steps++
+			if err := ds.ConfigureProjectorsBases(i, proj, basis, "verif C19"); err != nil {
+				return fmt.Sprintf("ConfigureProjectorsBases(stream %d %q) failed: %v", i, names[i], err), "projectors-error"
+			}
+			hasProj[i] = true
+		}
+		x.Logf("   files %s, projectors on %s", v19MaskName(mask), v19ProjSets[projSel])
+	} else {
+		x.Logf("   files %s", v19MaskName(mask))
+	}
 	x.Steps++
-	if err := ds.WriteControl(&WriteControlConfig{Request: "START", Path: base, WriteLJH22: true, WriteLJH3: ljh3}); err != nil {
+	if err := ds.WriteControl(&WriteControlConfig{Request: "START", Path: base, WriteLJH22: mask&1 != 0, WriteLJH3: mask&2 != 0, WriteOFF: mask&4 != 0}); err != nil {
 		return "WriteControl START failed: " + err.Error(), "start-error"
 	}
 	stopped := false
@@ -205,12 +285,13 @@ func v19Files(x *vexp.X, ds *AnySource, pub []chan []*DataRecord, ljh3 bool) (st
 	}()
 	pattern := ds.ComputeWritingState().FilenamePattern
 	const tag = 4242
+	stamp := func(i int) time.Time { return vT0.Add(time.Duration(i) * time.Millisecond) }
 	for i, dsp := range ds.processors {
 		data := make([]RawType, dsp.NSamples)
 		for j := range data {
 			data[j] = RawType(100*i + j)
 		}
-		rec := &DataRecord{data: data, trigFrame: FrameIndex(tag), trigTime: vT0.Add(time.Duration(i) * time.Millisecond),
+		rec := &DataRecord{data: data, trigFrame: FrameIndex(tag), trigTime: stamp(i),
 			channelIndex: i, presamples: dsp.NPresamples, sampPeriod: 0.001, voltsPerArb: 1}
 		recs := []*DataRecord{rec}
 		dsp.AnalyzeData(recs)
@@ -227,57 +308,125 @@ func v19Files(x *vexp.X, ds *AnySource, pub []chan []*DataRecord, ljh3 bool) (st
 		return "WriteControl STOP failed: " + err.Error(), "stop-error"
 	}
 	stopped = true
-	// one file per stream and type, all names distinct
+
+	// which (stream, type) pairs wrote a record
+	type ftype struct {
+		ext string
+		bit int
+	}
+	ftypes := []ftype{{"ljh", 1}, {"ljh3", 2}, {"off", 4}}
+	writes := func(i int, t ftype) bool { return mask&t.bit != 0 && (t.bit != 4 || hasProj[i]) }
+	// the run directory: as many files of each type as streams that wrote one; no two streams share a file
 	dir := filepath.Dir(pattern)
 	ents, _ := os.ReadDir(dir)
-	count := map[string]int{}
+	onDisk := map[string][]string{}
 	for _, e := range ents {
-		count[filepath.Ext(e.Name())]++
+		ext := strings.TrimPrefix(filepath.Ext(e.Name()), ".")
+		onDisk[ext] = append(onDisk[ext], e.Name())
 	}
-	x.Logf("   run directory holds %d .ljh and %d .ljh3 files for %d streams", count[".ljh"], count[".ljh3"], n)
-	fileOf := map[string]int{}
-	for i := range names {
-		fn := fmt.Sprintf(pattern, names[i], "ljh")
-		if j, ok := fileOf[fn]; ok {
-			return fmt.Sprintf("streams %d and %d write to the same file %s", j, i, filepath.Base(fn)), "file-name-shared"
+	x.Logf("   run directory holds %d .ljh, %d .ljh3 and %d .off files for %d streams", len(onDisk["ljh"]), len(onDisk["ljh3"]), len(onDisk["off"]), n)
+	fileOf := map[string]string{}
+	for _, t := range ftypes {
+		nw := 0
+		for i := range names {
+			if !writes(i, t) {
+				continue
+			}
+			nw++
+			fn := fmt.Sprintf(pattern, names[i], t.ext)
+			if who, ok := fileOf[fn]; ok {
+				return fmt.Sprintf("%s and stream %d (%s) write to the same file %s", who, i, t.ext, filepath.Base(fn)), "file-name-shared"
+			}
+			fileOf[fn] = fmt.Sprintf("stream %d (%s)", i, t.ext)
 		}
-		fileOf[fn] = i
-	}
-	if count[".ljh"] != n {
-		return fmt.Sprintf("%d streams were written but the run directory holds %d .ljh files", n, count[".ljh"]), "file-count"
-	}
-	if ljh3 && count[".ljh3"] != n {
-		return fmt.Sprintf("%d streams were written but the run directory holds %d .ljh3 files", n, count[".ljh3"]), "file-count"
-	}
-	for i := range names {
-		fn := fmt.Sprintf(pattern, names[i], "ljh")
-		f, err := vParseLJH22(fn)
-		if err != nil {
-			return fmt.Sprintf("stream %d: %v", i, err), "file-malformed"
+		sort.Strings(onDisk[t.ext])
+		if len(onDisk[t.ext]) < nw {
+			return fmt.Sprintf("%d streams each wrote one record with %s writing on, but the run directory holds only %d .%s files %v: streams share an output file",
+				nw, strings.ToUpper(t.ext), len(onDisk[t.ext]), t.ext, onDisk[t.ext]), "file-name-shared"
 		}
-		rc := ds.rowColCodes[i]
-		if got := f.header["channel name"]; got != names[i] {
-			return fmt.Sprintf("%s: header Channel name %q, reported name of stream %d is %q", filepath.Base(fn), got, i, names[i]), "header-identity"
+		if len(onDisk[t.ext]) != nw {
+			return fmt.Sprintf("%d streams each wrote one record with %s writing on, but the run directory holds %d .%s files %v",
+				nw, strings.ToUpper(t.ext), len(onDisk[t.ext]), t.ext, onDisk[t.ext]), "file-count"
 		}
-		if got := f.header["data source"]; got != ds.name {
-			return fmt.Sprintf("%s: header Data source %q, source is %q", filepath.Base(fn), got, ds.name), "header-identity"
-		}
-		for _, w := range []struct {
-			key  string
-			want int
-		}{{"channel", ds.chanNumbers[i]}, {"channelindex", i}, {"number of rows", rc.rows()}, {"number of columns", rc.cols()},
-			{"row number", rc.row()}, {"column number", rc.col()}, {"subframe divisions", ds.subframeDivisions}, {"subframe offset", ds.subframeOffsets[i]},
-			{"number of channels", n}} {
-			got, ok := v19HeaderInt(f.header, w.key)
-			if !ok || got != w.want {
-				return fmt.Sprintf("%s: header field %q is %d (present=%v), the source reports %d for stream %d (%q)", filepath.Base(fn), w.key, got, ok, w.want, i, names[i]), "header-identity"
+		for i := range names {
+			if !writes(i, t) {
+				continue
+			}
+			fn := fmt.Sprintf(pattern, names[i], t.ext)
+			if _, err := os.Stat(fn); err != nil {
+				return fmt.Sprintf("stream %d (%q) wrote a record with %s writing on, but there is no file %s; the run directory holds %v",
+					i, names[i], strings.ToUpper(t.ext), filepath.Base(fn), onDisk[t.ext]), "file-not-named-for-stream"
 			}
 		}
-		if len(f.records) != 1 || f.records[0].subframe != int64(tag*ds.subframeDivisions+ds.subframeOffsets[i]) || len(f.records[0].data) == 0 || int(f.records[0].data[0]) != 100*i {
-			return fmt.Sprintf("%s: expected exactly the one record of stream %d (subframe count %d), file holds %d records", filepath.Base(fn), i, tag*ds.subframeDivisions+ds.subframeOffsets[i], len(f.records)), "file-wrong-record"
+	}
+
+	type want struct {
+		key  string
+		want int
+	}
+	if mask&1 != 0 {
+		for i := range names {
+			fn := fmt.Sprintf(pattern, names[i], "ljh")
+			f, err := vParseLJH22(fn)
+			if err != nil {
+				return fmt.Sprintf("stream %d: %v", i, err), "file-malformed"
+			}
+			rc := ds.rowColCodes[i]
+			if got := f.header["channel name"]; got != names[i] {
+				return fmt.Sprintf("%s: header Channel name %q, reported name of stream %d is %q", filepath.Base(fn), got, i, names[i]), "header-identity"
+			}
+			if got := f.header["data source"]; got != ds.name {
+				return fmt.Sprintf("%s: header Data source %q, source is %q", filepath.Base(fn), got, ds.name), "header-identity"
+			}
+			for _, w := range []want{{"channel", ds.chanNumbers[i]}, {"channelindex", i}, {"number of rows", rc.rows()}, {"number of columns", rc.cols()},
+				{"row number", rc.row()}, {"column number", rc.col()}, {"subframe divisions", ds.subframeDivisions}, {"subframe offset", ds.subframeOffsets[i]},
+				{"number of channels", n}} {
+				got, ok := v19HeaderInt(f.header, w.key)
+				if !ok || got != w.want {
+					return fmt.Sprintf("%s: header field %q is %d (present=%v), the source reports %d for stream %d (%q)", filepath.Base(fn), w.key, got, ok, w.want, i, names[i]), "header-identity"
+				}
+			}
+			if len(f.records) != 1 || f.records[0].subframe != int64(tag*ds.subframeDivisions+ds.subframeOffsets[i]) || len(f.records[0].data) == 0 || int(f.records[0].data[0]) != 100*i {
+				return fmt.Sprintf("%s: expected exactly the one record of stream %d (subframe count %d), file holds %d records", filepath.Base(fn), i, tag*ds.subframeDivisions+ds.subframeOffsets[i], len(f.records)), "file-wrong-record"
+			}
 		}
 	}
-	if ljh3 {
+	if mask&4 != 0 {
+		for i := range names {
+			if !hasProj[i] {
+				continue
+			}
+			fn := fmt.Sprintf(pattern, names[i], "off")
+			f, err := vParseOFF(fn)
+			if err != nil {
+				return fmt.Sprintf("stream %d: %v", i, err), "file-malformed"
+			}
+			rc := ds.rowColCodes[i]
+			if got, ok := v19JSONString(f.header, "ChannelName"); !ok || got != names[i] {
+				return fmt.Sprintf("%s: OFF header ChannelName %q (present=%v), reported name of stream %d is %q", filepath.Base(fn), got, ok, i, names[i]), "off-header-identity"
+			}
+			if got, ok := v19JSONString(f.header, "CreationInfo", "SourceName"); !ok || got != ds.name {
+				return fmt.Sprintf("%s: OFF header CreationInfo.SourceName %q (present=%v), source is %q", filepath.Base(fn), got, ok, ds.name), "off-header-identity"
+			}
+			for _, w := range []struct {
+				path []string
+				want int
+			}{{[]string{"ChannelIndex"}, i}, {[]string{"ChannelNumberMatchingName"}, ds.chanNumbers[i]},
+				{[]string{"ReadoutInfo", "NumberOfRows"}, rc.rows()}, {[]string{"ReadoutInfo", "NumberOfColumns"}, rc.cols()},
+				{[]string{"ReadoutInfo", "RowNum"}, rc.row()}, {[]string{"ReadoutInfo", "ColumnNum"}, rc.col()},
+				{[]string{"ReadoutInfo", "NumberOfChans"}, n}, {[]string{"ReadoutInfo", "SubframeDivisions"}, ds.subframeDivisions},
+				{[]string{"ReadoutInfo", "SubframeOffset"}, ds.subframeOffsets[i]}} {
+				got, ok := vJSONInt(f.header, w.path...)
+				if !ok || got != w.want {
+					return fmt.Sprintf("%s: OFF header %s is %d (present=%v), the source reports %d for stream %d (%q)", filepath.Base(fn), strings.Join(w.path, "."), got, ok, w.want, i, names[i]), "off-header-identity"
+				}
+			}
+			if len(f.records) != 1 || f.records[0].frame != tag || f.records[0].timestamp != stamp(i).UnixNano() || len(f.records[0].coefs) != 2 || f.records[0].coefs[0] != float32(100*i) {
+				return fmt.Sprintf("%s: expected exactly the one record of stream %d (first coefficient %d), file holds %d records %+v", filepath.Base(fn), i, 100*i, len(f.records), f.records), "file-wrong-record"
+			}
+		}
+	}
+	if mask&2 != 0 {
 		rowcol := ""
 		for i := range names {
 			fn := fmt.Sprintf(pattern, names[i], "ljh3")
@@ -286,10 +435,7 @@ func v19Files(x *vexp.X, ds *AnySource, pub []chan []*DataRecord, ljh3 bool) (st
 				return fmt.Sprintf("stream %d: %v", i, err), "file-malformed"
 			}
 			rc := ds.rowColCodes[i]
-			for _, w := range []struct {
-				key  string
-				want int
-			}{{"NumberOfRows", rc.rows()}, {"NumberOfColumns", rc.cols()}, {"SubframeDivisions", ds.subframeDivisions}, {"SubframeOffset", ds.subframeOffsets[i]}} {
+			for _, w := range []want{{"NumberOfRows", rc.rows()}, {"NumberOfColumns", rc.cols()}, {"SubframeDivisions", ds.subframeDivisions}, {"SubframeOffset", ds.subframeOffsets[i]}} {
 				got, ok := vJSONInt(f.header, "TDM", w.key)
 				if !ok || got != w.want {
 					return fmt.Sprintf("%s: LJH3 header TDM.%s is %d (present=%v), the source reports %d for stream %d", filepath.Base(fn), w.key, got, ok, w.want, i), "ljh3-header-identity"
@@ -301,7 +447,7 @@ func v19Files(x *vexp.X, ds *AnySource, pub []chan []*DataRecord, ljh3 bool) (st
 			row, ok1 := vJSONInt(f.header, "TDM", "Row")
 			col, ok2 := vJSONInt(f.header, "TDM", "Column")
 			if rowcol == "" && (!ok1 || !ok2 || row != rc.row() || col != rc.col()) {
-				rowcol = fmt.Sprintf("%s: LJH3 header says TDM.Row=%d TDM.Column=%d, stream %d (%q) is row %d, column %d according to its row/column code and its LJH 2.2 header",
+				rowcol = fmt.Sprintf("%s: LJH3 header says TDM.Row=%d TDM.Column=%d, stream %d (%q) is row %d, column %d according to its row/column code",
 					filepath.Base(fn), row, col, i, names[i], rc.row(), rc.col())
 			}
 		}
@@ -486,8 +632,8 @@ func v19LanceroBody(r *vexp.Runner, lc v19LanceroCase, fileLimit int) func(x *ve
 			}
 		}
 		if nstreams <= fileLimit {
-			ljh3 := x.Choose(2) == 1
-			if v, c := v19Files(x, ds, pub, ljh3); v != "" {
+			mask, projSel := v19ChooseFiles(x, nstreams)
+			if v, c := v19Files(x, ds, pub, mask, projSel); v != "" {
 				res.Violation, res.Class = lc.id()+fmt.Sprintf(" sepCols=%d sepCards=%d: ", sepCols, sepCards)+v, c
 				return res
 			}
@@ -604,8 +750,8 @@ func v19AbacoRun(r *vexp.Runner, x *vexp.X, layout []GroupIndex, split int, file
 		return res
 	}
 	if nstreams <= fileLimit {
-		ljh3 := x.Choose(2) == 1
-		if v, c := v19Files(x, ds, pub, ljh3); v != "" {
+		mask, projSel := v19ChooseFiles(x, nstreams)
+		if v, c := v19Files(x, ds, pub, mask, projSel); v != "" {
 			res.Violation, res.Class = fmt.Sprintf("Abaco layout %v: ", layout)+v, c
 			return res
 		}
@@ -686,8 +832,8 @@ func v19SimpleRun(r *vexp.Runner, x *vexp.X, kind string, nchan int) vexp.Result
 		res.Violation, res.Class = fmt.Sprintf("%s source with %d channels: ", kind, nchan)+v, kind+"-"+c
 		return res
 	}
-	ljh3 := x.Choose(2) == 1
-	if v, c := v19Files(x, ds, pub, ljh3); v != "" {
+	mask, projSel := v19ChooseFiles(x, nchan)
+	if v, c := v19Files(x, ds, pub, mask, projSel); v != "" {
 		res.Violation, res.Class = fmt.Sprintf("%s source with %d channels: ", kind, nchan)+v, c
 		return res
 	}
@@ -805,7 +951,7 @@ func v19TwiceRun(r *vexp.Runner, x *vexp.X, tw v19Twicer, a, b int, fileLimit in
 		return res
 	}
 	if len(truth) <= fileLimit {
-		if v, c := v19Files(x, ds, pub, true); v != "" {
+		if v, c := v19Files(x, ds, pub, 7, 0); v != "" {
 			res.Violation, res.Class = what+": "+v, "twice-"+c
 			return res
 		}
@@ -1107,9 +1253,11 @@ func TestVerifC19(t *testing.T) {
 		}
 	}
 	r.SetBound(fmt.Sprintf("Lancero: active device lists %v x 1..%d columns x 1..%d rows (equal on all cards, plus card k with 2+k rows) x FirstRow %v x ChanSepColumns {-1,0,R-1,R,R+3} x ChanSepCards {-1,0,span-1,span,span+10}, "+
-		"files (LJH22, LJH22+LJH3) for accepted configurations with <= %d streams; Abaco: every set of 1..3 distinct groups out of %d (Firstchan,Nchan) types (adjacent, gapped, overlapping, nested), both arrival orders of pairs, "+
+		"files for accepted configurations with <= %d streams; Abaco: every set of 1..3 distinct groups out of %d (Firstchan,Nchan) types (adjacent, gapped, overlapping, nested), both arrival orders of pairs, "+
 		"one producer or two, files for accepted layouts with <= %d streams; generic/Triangle/SimPulse/Roach sources with 1..4 channels with files; "+
-		"prepared twice (same source object prepared for A, optionally PrepareRun, no Stop, prepared for B; compared with a fresh object prepared for B, all single-preparation oracles, LJH22+LJH3 files for <= %d streams): "+
+		"files = every non-empty subset of {LJH22, LJH3, OFF} as the START's file types, one tagged record per stream, STOP; OFF with projectors on all streams, the OFF-only START also with projectors "+
+		"on the odd-indexed (Lancero: feedback) or the even-indexed (Lancero: error) streams only; "+
+		"prepared twice (same source object prepared for A, optionally PrepareRun, no Stop, prepared for B; compared with a fresh object prepared for B, all single-preparation oracles, LJH22+LJH3+OFF files with projectors on all streams for <= %d streams): "+
 		"every ordered pair out of Lancero 4 geometries (1 card 1x2, 1 card 2x3, 2 cards 1x2, cards 1 and 3 with 2x2 and 2x3) x 6 separation settings (4 accepted, 2 rejected), "+
 		"9 Abaco layouts (1..3 groups, one or two producers, one overlapping), generic/Triangle/SimPulse 1..4 channels, Roach device lists [1] [2] [3] [4] [1 2] [2 2] [3 1]",
 		devsets, maxCols, maxRows, firsts, lanceroFiles, len(gtypes), abacoFiles, twiceFiles))
